@@ -339,10 +339,20 @@ def apply_unified_diff(files, diff_text):
         new = []
         pos = 0
         for start, lines in hs:
-            new.extend(src[pos:start - 1])
-            pos = start - 1
             while lines and lines[-1] == "":
                 lines.pop()          # trailing split artefact
+            # like `git apply`: the hunk applies where its old side (context + removed lines) matches, nearest to the stated line
+            want = [l[1:] for l in lines if (l[:1] or " ") in (" ", "-")]
+            at = None
+            for off in sorted(range(-400, 401), key=abs):
+                k = start - 1 + off
+                if k >= pos and k + len(want) <= len(src) and src[k:k + len(want)] == want:
+                    at = k
+                    break
+            if at is None:
+                raise ValueError(f"context mismatch in {path} near line {start}")
+            new.extend(src[pos:at])
+            pos = at
             for l in lines:
                 tag, body = (l[:1] or " "), l[1:]
                 if tag == " ":
